@@ -111,6 +111,70 @@ Proof.
 Qed.
 Print Assumptions C08_oracle_holds_on_model_slow.
 
+(** The three places where Go dereferences [d.interfaces[egress]] without a nil test of their own —
+    [handleEgressRouterAlert] ([.Scope()], dataplane.go:1654), [validateEgressUp] ([.IsUp()], :1606) and the
+    tail of [process()] ([.Scope()], :1824) — are only reached with an egress id that IS in the interface
+    map: [validateEgressID] (which tests [egressLink == nil] first and answers with an SCMP error) has
+    accepted it, and nothing in between changes [pkt.egress].  The model's [egress_if] is a total
+    function (it falls back to the internal interface for an unknown id); this theorem says the fallback
+    is never taken at those points, for EVERY configuration ([get_if c 0] is the internal link, which
+    [AddInternalInterface] installs before the dataplane can run; no other assumption on the
+    configuration is needed), every packet, ingress link and MAC function. *)
+Theorem C08_egress_link_nonnil : forall mq c now ing s,
+  match xover_part mq now s >>= set_egress >>= validate_egress_id c ing with
+  | Stop _ => True
+  | Ok s1 =>
+    (* at handleEgressRouterAlert *)
+    (exists f, get_if c (s_eg s1) = Some f /\ egress_if c s1 = f) /\
+    match handle_egress_router_alert c s1 with
+    | Stop _ => True
+    | Ok s2 =>
+      (* at validateEgressUp *)
+      (exists f, get_if c (s_eg s2) = Some f /\ egress_if c s2 = f) /\
+      match validate_egress_up c s2 with
+      | Stop _ => True
+      | Ok s3 =>
+        (* at the Scope() test that ends process() *)
+        exists f, get_if c (s_eg s3) = Some f /\ egress_if c s3 = f
+      end
+    end
+  end.
+Proof.
+  intros mq c now ing s.
+  destruct (xover_part mq now s >>= set_egress >>= validate_egress_id c ing) as [s1|r] eqn:E; [|exact I].
+  apply bind_ok in E as (s0 & _ & E). unfold validate_egress_id in E.
+  assert (G : exists f, get_if c (s_eg s1) = Some f /\ egress_if c s1 = f).
+  { destruct (get_if c (s_eg s0)) as [f|] eqn:EG.
+    - assert (s1 = s0) as ->.
+      { destruct (validate_egress _ _ _ _); try discriminate. now injection E as <-. }
+      exists f. unfold egress_if. rewrite EG. auto.
+    - cbn [validate_egress] in E. discriminate. }
+  split; [exact G|].
+  destruct (handle_egress_router_alert c s1) as [s2|r2] eqn:E2; [|exact I].
+  assert (s2 = s1) as ->.
+  { unfold handle_egress_router_alert in E2. destruct (negb _); [now injection E2 as <-|].
+    destruct (negb _); [now injection E2 as <-|discriminate]. }
+  split; [exact G|].
+  destruct (validate_egress_up c s1) as [s3|r3] eqn:E3; [|exact I].
+  assert (s3 = s1) as ->.
+  { unfold validate_egress_up, slow in E3. destruct (if_up _); [now injection E3 as <-|].
+    destruct (scope_eqb _ _); discriminate. }
+  exact G.
+Qed.
+Print Assumptions C08_egress_link_nonnil.
+
+(** the same along [process]: when the egress checks succeed, the egress id handed to the forwarding
+    step names an existing link *)
+Theorem C08_egress_part_link : forall mq c now ing s s',
+  egress_part mq c now ing s = Ok s' -> exists f, get_if c (s_eg s') = Some f /\ egress_if c s' = f.
+Proof.
+  intros mq c now ing s s' H. unfold egress_part in H.
+  apply bind_ok in H as (s2 & H & H3). apply bind_ok in H as (s1 & H & H2).
+  pose proof (C08_egress_link_nonnil mq c now ing s) as T. rewrite H in T.
+  destruct T as (_ & T). rewrite H2 in T. destruct T as (_ & T). rewrite H3 in T. exact T.
+Qed.
+Print Assumptions C08_egress_part_link.
+
 (** Non-vacuity: a transit packet is forwarded with a consistent header; the same packet with a
     wrong MAC is answered by a well-formed SCMP error; garbage records (pointer far outside,
     info list shorter than announced) are refused without panic. *)
